@@ -252,6 +252,15 @@ static void sample(vf_rng *r, int range, a_real *re, a_real *im, int *region)
     case 5: x = cos(ph); y = sin(ph); break;                    /* unit circle */
     default: x = mag * cos(ph); y = mag * sin(ph); break;
     }
+    if (vf_chance(r, 1, 24))
+    {
+        /* small lattice points (z = i, -1, 1 + i, 2i, 1/2 ...): exact values a comparison with a constant can single out
+           (mutation sweep: `z.imag != 1` for `z.imag != 0` in a_complex_arg is wrong for z = i only).  Points on a cut or pole of
+           the function under test are dropped by the cut tables like any other sample. */
+        static double const lat[] = {0, 1, -1, 2, -2, 0.5, -0.5, 3, -3};
+        x = lat[vf_below(r, 9)];
+        y = lat[vf_below(r, 9)];
+    }
     *re = (a_real)x;
     *im = (a_real)y;
     *region = (*im == 0 ? 0 : *im > 0 ? 1 : 2) * 3 + (*re == 0 ? 0 : *re > 0 ? 1 : 2); /* quadrant or axis: 9 classes */
@@ -632,6 +641,36 @@ static void realarg_case(vf_rng *r)
         RA(asec_real, out, r_asec, out > 1 || out < -1, SW_NONE);
         RA(acsc_real, out, r_acsc, out > 1 || out < -1, SW_NONE);
         RA(acosh_real, out, cacoshq, out > 1, SW_NONE);
+        /* the same variants ON their cuts (where a real argument is the whole point of having them): which side of the cut a real
+           argument belongs to is a convention about signed zeros that the property leaves out ("away from branch cuts"), so only
+           the MAGNITUDES of the real and imaginary parts are judged - they are the same on both sides.  A NaN, a swapped part or a
+           wrong formula in those branches is reported; the sign convention is not. (mutation sweep: acosh(+1 * x) for acosh(+1 / x)
+           in a_complex_asec_real survived) */
+#define RC(name, x, ref, dom)                                                                                                     \
+    do {                                                                                                                          \
+        if (dom)                                                                                                                  \
+        {                                                                                                                         \
+            q_t const h_ = 0x1p-30Q;                                                                                              \
+            qc_t const w0_ = ref(mk((x), 0)), w1_ = ref(mk((q_t)(x) * (1 + h_), 0));                                              \
+            qc_t const wa_ = mk(fabsq(crealq(w0_)), fabsq(cimagq(w0_))), wb_ = mk(fabsq(crealq(w1_)), fabsq(cimagq(w1_)));         \
+            q_t const k_ = cabsq(wa_) == 0 ? 1 : cabsq(wb_ - wa_) / (h_ * cabsq(wa_));                                            \
+            a_complex oa_;                                                                                                        \
+            snprintf(d, sizeof(d), "x=%a (on the cut)", (double)(x));                                                             \
+            a_complex_##name(&o, (x));                                                                                            \
+            oa_.real = o.real < 0 ? -o.real : o.real;                                                                             \
+            oa_.imag = o.imag < 0 ? -o.imag : o.imag;                                                                             \
+            if (o.real != o.real || o.imag != o.imag) { oa_.real = o.real; oa_.imag = o.imag; }                                   \
+            if (judge(#name, "on-cut-magnitudes", SW_NONE, wa_, k_, oa_, d)) { VF_COUNT("judged/" #name "/on-cut"); }             \
+        }                                                                                                                         \
+    } while (0)
+        RC(sqrt_real, -pos, csqrtq, 1);
+        RC(asin_real, out, casinq, 1);
+        RC(acos_real, out, cacosq, 1);
+        RC(atanh_real, out, catanhq, 1);
+        RC(asec_real, in, r_asec, in != 0);
+        RC(acsc_real, in, r_acsc, in != 0);
+        RC(acosh_real, in, cacoshq, 1);
+        RC(acosh_real, -out, cacoshq, 1);
     }
 }
 
